@@ -344,3 +344,9 @@ Proof. exact eqb_scaled. Qed.
 Theorem C14_fast_stream_pow2_binary64 : forall k xs xs' s s', rel_fast k s s' -> Forall2 (scaled k) xs xs' -> fast_run_ok k s xs ->
   Forall2 (scaled 0) (fast_outs FOps s xs) (fast_outs FOps s' xs').
 Proof. exact fast_stream_pow2. Qed.
+
+(* ... and SlowStochastic (EMA of %K) over whole streams: unchanged *)
+From TA Require Import Proofs.FloatScaleSlow.
+Theorem C14_slow_stream_pow2_binary64 : forall k xs xs' s s', rel_slow k s s' -> Forall2 (scaled k) xs xs' -> slow_run_ok k s xs ->
+  Forall2 (scaled 0) (slow_outs FOps s xs) (slow_outs FOps s' xs').
+Proof. exact slow_stream_pow2. Qed.
